@@ -54,3 +54,8 @@ func verifConfig(c *Config, g *GlobalVarsMain) {
 		VerifConfig(c, g)
 	}
 }
+
+// VerifRadia runs the unexported radiation interception / photosynthesis kernel of the crop module.
+func VerifRadia(g *GlobalVarsMain, l *CropSharedVars) (DLE, DLP, GPHOT, MAINT float64) {
+	return radia(g, l)
+}
